@@ -87,6 +87,6 @@ def convert(rec, gindex, keep_lex=False):
     return {
         'id': rec['id'], 'g': gindex, 'bytes': rec['bytes'],
         'v': bool(rec['verbose']), 'ws': bool(rec['ws']), 'nl': bool(rec['nl']),
-        'ok': rec['ok'], 'threw': rec.get('threw', ''), 'partial': rec.get('partial', ''),
+        'sk': rec['stream'], 'ok': rec['ok'], 'threw': rec.get('threw', ''), 'partial': rec.get('partial', ''),
         'events': evs, 'root': root, 'tree': flat, 'nlex': nlex,
     }
